@@ -254,9 +254,61 @@ Fixpoint satisfies_from (s : sstate) (ops : list sop) (outs : list sout) : bool 
   | _, _ => false
   end.
 
-Definition satisfies (t : trace) : bool := satisfies_from ([], 0) (t_ops t) (t_outs t).
+(* ---- batch reads agree with point reads ----
+   Independent of [dont_care]: whatever a backend decides about a plain read of a row written with
+   a TTL (mem hides it once expired, bbolt shows it until its cleaner has run), at one instant it
+   decides the same for Get and for GetBatch.  "One instant" = a stretch of the history made of
+   read operations only: no write, no conditional operation (whatever it answered), no clock
+   advance (hence no cleaner run).  Within such a stretch every answer of a Get is remembered in
+   [gets] and every item of a GetBatch in [batch] (partition key, clustering columns, observed
+   found flag and value); a Get must equal every remembered batch item for its key, and every item
+   of a GetBatch must equal every remembered Get of its key.  A GetBatch that answers with another
+   number of items than it was asked for fails the clause. *)
+Definition is_read (o : sop) : bool :=
+  match o with
+  | OGet _ _ | OGetBatch _ _ | ORead _ _ _ | OTTLGet _ _ | OTTLRead _ _ _ | OQueryTTL _ _ => true
+  | _ => false
+  end.
 
-(* diagnostics: positions of the ops whose output differs from the reference *)
+Definition memo := list (bytes * bytes * option bytes).
+
+Definition memo_ok (m : memo) (pk cc : bytes) (v : option bytes) : bool :=
+  forallb (fun e => negb (lex_eqb (fst (fst e)) pk && lex_eqb (snd (fst e)) cc) || obytes_eqb (snd e) v) m.
+
+Definition batch_items (pk : bytes) (ccs : list bytes) (vs : list (option bytes)) : memo :=
+  map (fun cv => (pk, fst cv, snd cv)) (combine ccs vs).
+
+(* the clause at one position: does this (op, observed output) contradict what was remembered? *)
+Definition bp_ok (gets batch : memo) (o : sop) (out : sout) : bool :=
+  match o, out with
+  | OGet pk cc, RGet v => memo_ok batch pk cc v
+  | OGetBatch pk ccs, RBatch vs =>
+      Nat.eqb (length ccs) (length vs) && forallb (fun e => memo_ok gets (fst (fst e)) (snd (fst e)) (snd e)) (batch_items pk ccs vs)
+  | _, _ => true
+  end.
+
+Definition bp_next (gets batch : memo) (o : sop) (out : sout) : memo * memo :=
+  match o, out with
+  | OGet pk cc, RGet v => ((pk, cc, v) :: gets, batch)
+  | OGetBatch pk ccs, RBatch vs => (gets, batch_items pk ccs vs ++ batch)
+  | _, _ => if is_read o then (gets, batch) else ([], [])
+  end.
+
+Fixpoint batch_point_from (gets batch : memo) (ops : list sop) (outs : list sout) : bool :=
+  match ops, outs with
+  | o :: ro, out :: routs =>
+      bp_ok gets batch o out
+      && batch_point_from (fst (bp_next gets batch o out)) (snd (bp_next gets batch o out)) ro routs
+  | _, _ => true
+  end.
+
+Definition batch_point (ops : list sop) (outs : list sout) : bool := batch_point_from [] [] ops outs.
+
+Definition satisfies (t : trace) : bool :=
+  satisfies_from ([], 0) (t_ops t) (t_outs t) && batch_point (t_ops t) (t_outs t).
+
+(* diagnostics: positions of the ops whose output differs from the reference, then the positions of
+   the Get / GetBatch ops that contradict a batch item / a Get of the same read-only stretch *)
 Fixpoint violations_from (i : N) (s : sstate) (ops : list sop) (outs : list sout) : list N :=
   match ops, outs with
   | o :: ro, out :: routs =>
@@ -264,5 +316,13 @@ Fixpoint violations_from (i : N) (s : sstate) (ops : list sop) (outs : list sout
       (if dont_care s o || sout_eqb expect out then [] else [i]) ++ violations_from (i + 1) s' ro routs
   | _, _ => []
   end.
-Definition violations_at (t : trace) : list N := violations_from 0 ([], 0) (t_ops t) (t_outs t).
+Fixpoint bp_violations_from (i : N) (gets batch : memo) (ops : list sop) (outs : list sout) : list N :=
+  match ops, outs with
+  | o :: ro, out :: routs =>
+      (if bp_ok gets batch o out then [] else [i])
+      ++ bp_violations_from (i + 1) (fst (bp_next gets batch o out)) (snd (bp_next gets batch o out)) ro routs
+  | _, _ => []
+  end.
+Definition violations_at (t : trace) : list N :=
+  violations_from 0 ([], 0) (t_ops t) (t_outs t) ++ bp_violations_from 0 [] [] (t_ops t) (t_outs t).
 Definition expected_outs (t : trace) : list sout := run_spec ([], 0) (t_ops t).
